@@ -31,6 +31,11 @@ var builtin = []string{
 
 // isIDValid checks if a name is a valid identifier in Go.
 func isIDValid(name string) bool {
+	// The blank identifier is not a usable name for a package.
+	if name == "_" {
+		return false
+	}
+
 	return idRegex.MatchString(name) && !generic.AnyMatch(builtin, func(s string) bool {
 		return s == name
 	})
